@@ -319,12 +319,13 @@ fn read_server_addresses(src: &mut impl io::Read) -> Result<[Option<SocketAddr>;
                 let addr = SocketAddr::new(IpAddr::V6(Ipv6Addr::from(ip)), port);
                 *server_address = Some(addr);
             }
-            NETCODE_ADDRESS_NONE => {} // skip
+            // An empty address would leave a hole in the list, which is never written back
+            NETCODE_ADDRESS_NONE => return Err(io::Error::new(io::ErrorKind::InvalidData, "Empty ip address type")),
             _ => return Err(io::Error::new(io::ErrorKind::InvalidData, "Unknown ip address type")),
         }
     }
 
-    if server_addresses.is_empty() {
+    if server_addresses[0].is_none() {
         return Err(io::Error::new(
             io::ErrorKind::InvalidData,
             "ConnectToken does not have a server address",
